@@ -722,6 +722,60 @@ theorem decode_accepts_obeys_ctx (env : KeyEnv) (K : KeyInfo) (ctx : Ctx) (p : V
     have h402 : (ctx.CONSENSUS).maxRecursiveDepth = 402 := by cases ctx <;> rfl
     simp only [ruleDepth, decide_eq_true_eq]; omega
 
+/-! ## the public-API routes that bypass `from_consensus` / `from_ast` -/
+
+/-- the API routes accept at least what the `from_consensus` + `from_ast` route accepts, and the
+unchecked leaf constructors accept at least what `from_ast` on every node accepts -/
+theorem api_routes_monotone (env : KeyEnv) (K : KeyInfo) (ctx : Ctx) (ms : Ms)
+    (h : constructed env K ctx ms = true) :
+    constructedApi false env K ctx ms = true ∧ constructedApi true env K ctx ms = true := by
+  simp only [constructed, constructedApi, List.all_eq_true] at h ⊢
+  have hterm : ∀ m, termNodeOk m = true → termNodeOkApi m = true := by
+    intro m hm
+    cases m <;> simp_all [termNodeOk, termNodeOkApi, relLockOk]
+  constructor <;> intro m hm <;>
+    (have := h m hm
+     simp only [fromAstNode, Bool.and_eq_true] at this
+     split
+     · exact hterm m this.1.1.1
+     · simp [this.1.1.1, this.1.1.2, this.1.2, this.2])
+
+/-- F19 (repaired by abe9c44e for `from_ast`, regression): a miniscript containing `older(0)`
+can no longer be built with `from_ast`, so no entry point fed through the checked route accepts
+`and_v(v:pk(A),older(0))`.  What is left of F19: the unchecked leaf constructor
+`Miniscript::older(RelLockTime::ZERO)` still builds the leaf, its parents' `from_ast` do not look
+at it and `validate` has no lock-range check — listed with the other unchecked leaf constructors
+(F20) -/
+theorem api_older_zero :
+    let s := Ms.andV (.verify (.check (.pkK 0))) (.older 0)
+    acceptsApi false demoEnv demoK .segwitv0 .fromAst s = false ∧
+    acceptsApi false demoEnv demoK .segwitv0 .msSane s = false ∧
+    acceptsApi false demoEnv demoK .segwitv0 .wrapper s = false ∧
+    acceptsApi false demoEnv demoK .legacy .wrapper s = false ∧
+    acceptsApi false demoEnv demoK .tap .trNew (.andV (.verify (.check (.pkK 200))) (.older 0)) = false ∧
+    acceptsApi false demoEnv demoK .segwitv0 .fromAst (.older 0) = false ∧
+    accepts demoEnv demoK .segwitv0 .fromAst s = false ∧ ruleRange s = false ∧
+    -- the residue, through `Miniscript::older(RelLockTime::ZERO)`
+    acceptsApi true demoEnv demoK .segwitv0 .fromAst (.older 0) = true ∧
+    acceptsApi true demoEnv demoK .segwitv0 .wrapper s = true := by
+  decide
+
+/-- F20: the unchecked leaf constructors yield miniscripts whose keys the context forbids;
+every wrapper now catches them with `validate` — `Bare::new` too since fix d43c12c1 (F21,
+regression) -/
+theorem api_ctor_wrong_key_kinds :
+    acceptsApi true demoEnv demoK .segwitv0 .fromAst (.check (.pkK 200)) = true ∧
+    acceptsApi true demoEnv demoK .tap .fromAst (.multi 1 [200, 201]) = true ∧
+    ruleKeys (demoF .segwitv0) .segwitv0 (.check (.pkK 200)) = false ∧
+    acceptsApi true demoEnv demoK .bare .wrapper (.check (.pkK 200)) = false ∧
+    acceptsApi true demoEnv demoK .bare .wrapper (.multi 2 [200, 201, 202]) = false ∧
+    acceptsApi true demoEnv demoK .bare .wrapper (.check (.pkK 0)) = true ∧
+    acceptsApi true demoEnv demoK .segwitv0 .wrapper (.check (.pkK 200)) = false ∧
+    acceptsApi true demoEnv demoK .legacy .wrapper (.check (.pkK 200)) = false ∧
+    acceptsApi true demoEnv demoK .tap .trNew (.check (.pkK 100)) = false ∧
+    acceptsApi false demoEnv demoK .bare .wrapper (.check (.pkK 200)) = false := by
+  decide
+
 /-! ## one model of `validate`: C08's mirror is this one -/
 
 /-- `CC.validateSane` (Model/CompileCheck.lean, used by C08's compiler checker) equals
